@@ -1113,6 +1113,45 @@ def serde_step(case, reg, toks, t, fails):
     return True
 
 
+def deser_step(case, reg, toks, t, fails):
+    """deserializing a token stream = inserting its entries one by one in order (repeated keys
+    included: the later value wins, one entry stays); content by class and value, identities are fresh."""
+    isset = reg.startswith("s")
+    items = [x for x in toks[3].strip("[]").split(",") if x]
+    cap = case.caps[reg]
+    cur = {}
+    order = []
+    overflow = False
+    for it in items:
+        if isset:
+            kc, vv = int(it), None
+        else:
+            a, b = it.split("=")
+            kc, vv = int(a), int(b)
+        if kc in cur:
+            cur[kc] = vv
+        elif len(order) < cap:
+            order.append(kc)
+            cur[kc] = vv
+        else:
+            overflow = True
+            break
+    if overflow:
+        if t["outcome"] == "ok" and t["ret"].endswith(",ok]"):
+            fails.append("%s deser with more distinct keys than capacity %d ended ok" % (reg, cap))
+        return True
+    if t["outcome"] != "ok" or not t["ret"].endswith(",ok]"):
+        fails.append("%s deser of %d entries (%d distinct) into capacity %d ended %s %s" % (reg, len(items), len(order), cap, t["outcome"], t["ret"]))
+        return True
+    g = t["snaps"].get(reg)
+    if g is not None:
+        got = sorted((e[0], e[3]) for e in g["ents"])
+        want = sorted((k, cur[k]) for k in order)
+        if got != want or g["len"] != len(order):
+            fails.append("%s after deser holds %s (len %d), inserting the entries one by one gives %s" % (reg, got, g["len"], want))
+    return True
+
+
 def run(prop, ops_path, impl_path, profile):
     """-> list of failures: dict(case, op, what, impl, case_lines)"""
     import compare
@@ -1267,6 +1306,8 @@ def run(prop, ops_path, impl_path, profile):
                         gdm_step(case, reg, toks, t, fails)
                     if "serde" in fam and op == "serde":
                         serde_step(case, reg, toks, t, fails)
+                    if fam & {"serde", "uniq", "bulk"} and op == "deser":
+                        deser_step(case, reg, toks, t, fails)
                 except (ValueError, IndexError, KeyError) as ex:       # an oracle bug must not look like a finding
                     fails = [f for f in fails if not f.startswith("oracle-error")]
                     fails.append("oracle-error: %r on %s" % (ex, opl))
